@@ -45,6 +45,9 @@ func clip(s string, n int) string {
 // genCalls draws the distinct calls of one history (mix fixed so that every category occurs).
 func genCalls(r *lib.Rng, p *c10Pool, st map[string]int) []c10Call {
 	cats := []int{0, 0, 0, 0, 1, 2, 2, 3, 3, 3, 3, 4, 4, 5, 5}
+	if strings.HasPrefix(p.Class, "shared") {
+		cats = []int{0, 0, 1, 2, 3, 3, 3, 3, 3, 3, 3, 3, 3, 3, 4, 4, 4, 5}
+	}
 	var calls []c10Call
 	seen := map[string]bool{}
 	for _, c := range cats {
@@ -110,9 +113,13 @@ func main() {
 		d0 := digest(store0)
 		first := map[int]string{}
 		var events, canons, notes []string
+		keeper := &c10Keeper{}
+		curKeeper = keeper
 		for _, ci := range sched {
 			c := calls[ci]
+			keeper.active, keeper.curKey = true, c.Key
 			obs, canon := guard(func() (string, string) { return c.Run(p) })
+			keeper.active = false
 			if strings.HasPrefix(obs, "P:") {
 				st["panics"]++
 			}
@@ -133,7 +140,25 @@ func main() {
 				notes = append(notes, fmt.Sprintf("operands changed after call %s: was %s now %s", c.Key, clip(store0, 300), clip(sd, 300)))
 			}
 			events = append(events, c.Key+"#"+digest(obs)+"#"+digest(sd))
+			// results of earlier calls are values too: re-observe the retained ones after this call
+			if nk := len(keeper.reobs); nk > 0 {
+				var sb strings.Builder
+				for idx, f := range keeper.reobs {
+					cur, _ := guard(func() (string, string) { return f(), "" })
+					if cur != keeper.first[idx] && len(notes) < 3 {
+						notes = append(notes, fmt.Sprintf("a result of call %s changed after call %s: was %s now %s", keeper.keys[idx], c.Key, clip(keeper.first[idx], 300), clip(cur, 300)))
+					}
+					sb.WriteString(cur)
+					sb.WriteByte('|')
+				}
+				sd2 := p.store()
+				if sd2 != store0 && len(notes) < 3 {
+					notes = append(notes, fmt.Sprintf("operands changed by re-observing results after call %s", c.Key))
+				}
+				events = append(events, fmt.Sprintf("reobserve-results:%d#%s#%s", nk, digest(sb.String()), digest(sd2)))
+			}
 		}
+		curKeeper = nil
 		alias := aliasChecks(p)
 		var pool []string
 		for _, g := range p.G {
